@@ -18,7 +18,7 @@ CHECKS = {
  "C02": (True, "exploration", "6 adaptive solvers x 12 closed-form problems x 8 tolerances x 3 step caps x 2 initial states; every consecutive pair of every path is compared with the exact flow restarted from the previous point (bound K tol h, resp. K tol for BDF, K = 25).", "closed-form flows as reference; K = 25; lattice points only", E1, "3/C02", "E1"),
  "C03": (True, "model_checking", "Transition-level conformance: every consecutive pair of every trajectory (7 solvers x 5 right-hand sides x tolerances x step caps x interval lengths, static and dynamic) is classified by a reference stepper transcribed from the literature and independent of the step-size policy; the Adams reference is nondeterministic (hypothesis set over the hidden derivative history, fed by the values the harness-owned callback actually returned) and run by subset construction.", "literature formulas in refstep.rs; match tolerances in units of eps(|y|+h|f|+|t||f|); hypothesis cap 64", "subset-construction reference stepper judging every transition of every explored trajectory (" + E1 + ")", "3/C03", "E1"),
  "C04": (True, "exploration", "7 solvers x 10 closed-form problems x tolerance (Euler: step) ladders with the C02 step cap: every yielded state against the true solution with the classical amplification factor; complex problems against their real 2x2 twins; dynamic against static dimension to conditioning-aware rounding level.", "K = 25, G = (e^{LT}-1)/L from the catalogue; Euler bound with sampled M = max|y''|", E1, "3/C04", "E1"),
- "C05": (True, "exploration", "6 adaptive solvers x 13 problems (incl. rest and relaxation) x tolerances x step caps x horizons; the harness-owned derivative closure counts calls and enforces a budget of 4x the bound W (T L (|y'|/tol)^(1/p) + T/dtmax + 64), W = 400, so a non-terminating or thousand-fold over-working solve is reported, not waited for.", "W = 400 (observed worst about 15); one-sided", E1, "3/C05", "E1"),
+ "C05": (True, "exploration", "6 adaptive solvers x 13 problems (incl. rest and relaxation) x tolerances x step caps x horizons; the harness-owned derivative closure counts calls and enforces a budget of 4x the bound W (T L (|y'|/tol)^(1/p) + T/dtmax + 64), W = 100, so a non-terminating or thousand-fold over-working solve is reported, not waited for.", "W = 100 (observed worst about 15); one-sided", E1, "3/C05", "E1"),
  "C06": (True, "model_checking", "(a) for each of the 7 builders every sequence of up to 5 (quick) / 6 (thorough) calls from a 20-letter alphabet of valid/zero/negative/reversed values is executed on the real builder and compared call by call, at solve() and on a run of y'=0 with a reference model of the builder contract (86M histories thorough); all 5040 setter orders must give bit-identical paths; static/dynamic misuse; (b) fault sequences: the derivative fails at call k for EVERY k up to the call count of the faultless run; exactly one Err item carrying the error, None afterwards, collect_vec returns it.", "reference builder contract written out in c06.rs; NaN and wrong-length slices not enumerated", "exhaustive operation-sequence enumeration against a reference model + exhaustive fault-point enumeration", "3/C06", "E2"),
  "C07": (True, "model_checking", "E2 full depth-first search: the function under the root finder is an adversarial environment answering every new abscissa from a small alphabet (memoised, so each path is a genuine continuous function); ALL answer sequences up to the method's termination bound (Brent: evaluation cap) are explored for 6 brackets x tolerances x ITP parameter grid, incl. the end-point answers (same-sign rejections); plus deviation-bounded search around 6 concrete functions up to the full bound, a 14-function catalogue with known roots on all opposite-sign pairs of 16 end points, and invalid arguments.", "evaluation bounds stated in the evidence; depth bounded by the tolerance (cap for Brent)", E2, "3/C07", "E2"),
  "C08": (True, "exploration", "newton and secant on F(x) = A(x-r) + c N(x-r) for dimension 1-4 x 6 matrices (one singular) x 3 non-linearities x 3 roots x starts (origin, on the root, near along every axis and the diagonal) x tolerances x finite-difference widths x caps (70k systems thorough); polynomial Newton/Muller on 14 root sets from starts inside the contraction region incl. the origin and vertical/skew Muller triples; Steffensen on 10 contractions down to tol 1e-13; callbacks count calls.", "accuracy 8 tol max(1,|r|) + conditioning floor; Ok required only inside the stated convergence region", E1, "3/C08", "E1"),
